@@ -347,3 +347,16 @@ package stdlib
 //@   ensures [months] !ispart(str_lower(name), "nanos") && !ispart(str_lower(name), "seconds") && !ispart(str_lower(name), "minutes") && !ispart(str_lower(name), "hours") && !ispart(str_lower(name), "days") && ispart(str_lower(name), "months") ==> result == "2006-01"
 //@   ensures [years] !ispart(str_lower(name), "nanos") && !ispart(str_lower(name), "seconds") && !ispart(str_lower(name), "minutes") && !ispart(str_lower(name), "hours") && !ispart(str_lower(name), "days") && !ispart(str_lower(name), "months") && ispart(str_lower(name), "years") ==> result == "2006"
 //@   ensures [unknown] (result == "") == (!ispart(str_lower(name), "nanos") && !ispart(str_lower(name), "seconds") && !ispart(str_lower(name), "minutes") && !ispart(str_lower(name), "hours") && !ispart(str_lower(name), "days") && !ispart(str_lower(name), "months") && !ispart(str_lower(name), "years"))
+
+// ---- C17: {$ a b c} / {@ a b c} keep every argument, empty ones included ----
+// join_n(args, ctx, d, n): the first n argument values with d between consecutive ones - an empty
+// first (or any other) argument still counts as an element.
+//@ smt
+//@ (define-fun-rec join_n ((a (Array Int Int)) (o Int) (c Int) (d Str) (n Int)) Str
+//@   (ite (<= n 1) (app (select a o) c) (scat (scat (join_n a o c d (- n 1)) d) (app (select a (+ o (- n 1))) c))))
+//@ end
+//@ func kfJoin$1$1
+//@   ensures [all-arguments] result == join_n(arr(*args), off(*args), context, str_of_rune(*delim), len(*args))
+//@   loop 1 invariant rangeindex + 2 <= len(*args) && len(*args) >= 1
+//@   loop 1 invariant sb_content(addrof(sb)) == join_n(arr(*args), off(*args), context, str_of_rune(*delim), rangeindex + 2)
+//@   loop 1 invariant ref(rangeslice()) == ref(*args) && off(rangeslice()) == off(*args) + 1 && len(rangeslice()) == len(*args) - 1
